@@ -585,7 +585,7 @@ func (fc *fileCtx) instrument(info *types.Info, pkg *types.Package, tick bool) {
 				}
 			case "sync":
 				switch x.Sel.Name {
-				case "Mutex", "RWMutex", "Once":
+				case "Mutex", "RWMutex", "Once", "Pool":
 					fc.repl(x.Pos(), x.End(), "simrt."+x.Sel.Name)
 					touch(x.X, "NewCond")
 					fc.count("synctype")
